@@ -26,8 +26,17 @@ def attr_loop_obligations(ctx: Ctx, m: Any, pid: str, want_value: bool) -> None:
             continue
         ctx.require(a["outcome"] in ("fall", "continue"), f"attribute loop body leaves the loop: {a['outcome']}")
         accs = [c for c in a["carried"] if isinstance(a["env"].get(c), object) and canon(a["env"].get(c))[:1] == [("ACC", c)]]
-        ctx.require(len(accs) == 1, f"attribute loop has no single string accumulator ({a['carried']})")
-        toks = strip_names(canon(a["env"][accs[0]])[1:])
+        if "tokens" in a:
+            toks = strip_names(a["tokens"])
+        elif len(accs) == 1:
+            toks = strip_names(canon(a["env"][accs[0]])[1:])
+        else:
+            # parts.append(<piece>) into a list that is joined after the loop
+            from ..values import SList
+            apps = [e for e in a["leaf"].effects[a.get("start", 0):] if e.kind == "mutcall" and e.key == "append" and isinstance(e.target, SList)
+                    and e.target.mode == "carried"]
+            ctx.require(len(apps) == 1 and apps[0].value, f"attribute loop has neither a string accumulator nor a single parts.append ({a['carried']})")
+            toks = strip_names(canon(apps[0].value[0]))
         val_tokens = [t for t in toks if t[0] == "TEXT" and t[1] != "PLAIN" or (t[0] == "TEXT" and t[2])]
         shape = [t if t[0] == "LIT" else (t[0],) for t in toks]
         ok = shape == [("LIT", " "), ("TEXT",), ("LIT", '="'), ("TEXT",), ("LIT", '"')]
@@ -39,6 +48,9 @@ def attr_loop_obligations(ctx: Ctx, m: Any, pid: str, want_value: bool) -> None:
             ctx.check(key_t[1:3] == ("PLAIN", ()), f"{pid}.attrs", "attribute name written as stored", TG,
                       f"attribute name emitted as {fmt([key_t])}", "the attribute name is transformed when written")
             html_val = any(str(lbl) == "isinstance HTML" for _, lbl in leaf.atoms)
+            if "var" in a:
+                vv = a["var"].items[1] if hasattr(a["var"], "items") and len(a["var"].items) == 2 else None
+                html_val = vv is not None and vv.kinds <= {"HTMLSTR"}
             want = ("TRUSTED", ()) if html_val else ("PLAIN", ("attr",))
             ctx.check(val_t[1:3] == want, f"{pid}.attrs",
                       f"{'HTML()' if html_val else 'plain'} attribute value emitted {'verbatim' if html_val else 'attribute-escaped exactly once'}",
